@@ -37,7 +37,7 @@ ARCHS_T_PAT = {"positive": [[4, 4]], "complex": [[4, 2]], "mixed": [[4, 1, 1]]}
 def bound(tier):
     return dict(dev_archs=ARCHS_Q if tier == "quick" else {k: ARCHS_Q[k] + ARCHS_T[k] for k in ARCHS_Q},
                 pattern_only_archs=ARCHS_PAT if tier == "quick" else ARCHS_T_PAT,
-                singles="all 2^n * 3^n (outcome, basis) pairs", batches="ordered selections of <=3 rows from a 4-row pool, all splits",
+                singles="all 2^n * 3^n (outcome, basis) pairs", batches="ordered selections of <=3 rows from a 4-row pool, all splits; every (ordered, n<=2) pair of distinct basis strings as a 2-row batch; all 3^n strings in one batch (several row orders)",
                 datasets="multisets of <= 3 pool rows", deviation_values="{-7,0,7} (+-30 for positive)")
 
 
@@ -198,6 +198,29 @@ def check_case(acc, kind, arch, params, full=True):
                 e, sc = ndiff(nsum([ga, gb]), g)
                 if not e <= 1e-11 * sc:
                     bad("gradient:not-additive-under-batch-split", nsum([ga, gb]), g, detail=dict(rows=[pool[i] for i in rows], cut=cut))
+                    return
+        # (b2) any multiset of basis strings in one batch: every pair of distinct basis strings as a
+        # two-row batch (ordered for n<=2), and all 3^n strings together in two row orders
+        if kind != "positive":
+            pairs = []
+            if full:
+                for b1 in bases:
+                    for b2 in bases:
+                        if b1 != b2 and (n <= 2 or b1 < b2):
+                            pairs.append([(D - 1, b1), (D // 2, b2)])
+            allb = [((3 * i + 1) % D, b) for i, b in enumerate(bases)]
+            pairs += [allb, allb[::-1]]
+            if full and n <= 2:
+                pairs += [allb[1::2] + allb[0::2], [(0, b) for b in bases] + allb]
+            for rows_ in pairs:
+                smp = space[[r[0] for r in rows_]]
+                bs = barr([r[1] for r in rows_])
+                exp = nsum([J[r[0]][bidx[r[1]]] for r in rows_])
+                expr = nsum([Jr[r[0]][bidx[r[1]]] for r in rows_])
+                g = split_named(st, call(st.gradient, smp, bs))
+                acc.count("batch_gradients")
+                if not within(g, exp, expr):
+                    bad("gradient:batch-with-several-bases-is-not-sum-of-per-sample-gradients", g, exp, detail=dict(rows=rows_ if len(rows_) <= 4 else "all bases"))
                     return
         # (c) exact gradients on datasets = gradient of the full NLL (positive phase + exact negative phase)
         for r in (1, 2, 3):
